@@ -9,5 +9,6 @@ pub mod clientstate;
 pub mod codec;
 pub mod commitlog;
 pub mod engine;
+pub mod fullstack;
 pub mod props;
 pub mod topic;
